@@ -17,6 +17,8 @@ import (
 	"sort"
 	"strconv"
 	"strings"
+	"sync"
+	"time"
 )
 
 // Violation is one disagreement between the real code and the specification.
@@ -224,16 +226,62 @@ func main() {
 			fmt.Fprintln(os.Stderr, "binder: family has no record")
 			os.Exit(2)
 		}
-		w := bufio.NewWriterSize(os.Stdout, 1<<20)
+		bw := bufio.NewWriterSize(os.Stdout, 1<<20)
+		w := &progressWriter{w: bw, last: time.Now()}
+		go w.watch(bw)
 		if err := f.record(w, os.Args[3:]); err != nil {
-			w.Flush()
+			bw.Flush()
 			fmt.Fprintln(os.Stderr, "binder:", err)
 			os.Exit(2)
 		}
-		w.Flush()
+		w.mu.Lock() // keep the watchdog out while the last events are flushed
+		bw.Flush()
 	default:
 		fmt.Fprintln(os.Stderr, "binder: unknown mode", mode)
 		os.Exit(2)
+	}
+}
+
+// progressWriter sits between a recorder and its output.  Every recorder writes one event per library call, so a long
+// silence means a call into the library under test has not returned.  The watchdog then reports the hang on stderr (with
+// the last event that was written) and exits with code 3, which the driver treats like a crash of the code under test:
+// a verdict about the library, reproducible with the same record command.  The limit is far above the slowest
+// legitimate call (a few seconds for the exact Mann-Whitney distribution at the size limits, even on a loaded machine).
+type progressWriter struct {
+	mu    sync.Mutex
+	w     io.Writer
+	last  time.Time
+	tail  []byte
+	count int
+}
+
+func (p *progressWriter) Write(b []byte) (int, error) {
+	p.mu.Lock()
+	defer p.mu.Unlock()
+	p.last = time.Now()
+	p.count++
+	if len(b) > 400 {
+		p.tail = append(p.tail[:0], b[:400]...)
+	} else {
+		p.tail = append(p.tail[:0], b...)
+	}
+	return p.w.Write(b)
+}
+
+func (p *progressWriter) watch(bw *bufio.Writer) {
+	limit := 180 * time.Second
+	if v, err := strconv.Atoi(os.Getenv("VERIF_HANG_S")); err == nil && v > 0 {
+		limit = time.Duration(v) * time.Second
+	}
+	for {
+		time.Sleep(limit / 20)
+		p.mu.Lock()
+		if time.Since(p.last) > limit {
+			bw.Flush()
+			fmt.Fprintf(os.Stderr, "HANG: the library call after recorded event #%d has not returned for %v; last event written: %s\n", p.count, limit, p.tail)
+			os.Exit(3)
+		}
+		p.mu.Unlock()
 	}
 }
 
